@@ -356,6 +356,15 @@ Proof.
     destruct (shut (w_mod (x_w s) m)); (eapply NoStart_trans; [|apply NoStart_say; reflexivity]); reflexivity.
 Qed.
 
+Lemma end_task_NoStart m how s tk : NoStart s (end_task m how s tk).
+Proof. unfold end_task. eapply NoStart_trans; [|apply NoStart_say; reflexivity]. reflexivity. Qed.
+
+Lemma fold_end_task_NoStart m : forall l s, NoStart s (fold_left (end_task m 0) l s).
+Proof. induction l as [|tk l IH]; intros s; cbn [fold_left]; [reflexivity|]. eapply NoStart_trans; [apply end_task_NoStart|apply IH]. Qed.
+
+Lemma spawn_items_NoStart m i ps : start_calls (spawn_items m i ps) = [].
+Proof. unfold spawn_items. induction (combine (seq 0 (length ps)) ps) as [|x l IH]; [reflexivity|exact IH]. Qed.
+
 Lemma poll1_NoStart k now m s tk : NoStart s (poll1 k now m s tk).
 Proof.
   unfold poll1.
@@ -363,7 +372,7 @@ Proof.
     pose proof (run_prog_NoStart true k now m who p s0) as H; destruct (run_prog true k now m who p s0) as [s1 r] end.
   cbn [fst] in H.
   assert (H0 : NoStart s s1) by (eapply NoStart_trans; [|exact H]; apply NoStart_say; destruct (tk_new tk); reflexivity).
-  destruct r; exact H0.
+  destruct r; try exact H0; (eapply NoStart_trans; [exact H0|apply end_task_NoStart]).
 Qed.
 
 Lemma poll_ready_NoStart k now m s : NoStart s (poll_ready k now m s).
@@ -384,9 +393,10 @@ Proof.
   { intros sp p. exists (active (w_mod (x_w s) m)). unfold exec.
     match goal with |- context [run_prog false k now m 0 p ?s0] =>
       pose proof (run_prog_NoStart false k now m 0 p s0) as H; destruct (run_prog false k now m 0 p s0) as [s2 r] end.
-    cbn [fst] in H. unfold NoStart in H. cbn [on_w say x_log] in H. rewrite start_calls_app in H.
+    cbn [fst] in H. unfold NoStart in H. cbn [on_w say say_all x_log] in H. rewrite !start_calls_app, spawn_items_NoStart, app_nil_r in H.
     unfold start_calls at 3 in H. cbn [filter is_start_call] in H.
-    destruct r; cbn [fst]; try exact H; try (rewrite (poll_ready_NoStart k now m s2); exact H). }
+    destruct r; cbn [fst]; try exact H; try (rewrite (poll_ready_NoStart k now m s2); exact H).
+    rewrite (fold_end_task_NoStart m). exact H. }
   destruct (stage =? 0).
   - destruct (G (c_spawn c) (pick_start c (inc (w_mod (x_w s) m)))) as (a & Ha). exists a.
     destruct (exec k now m (CbStart stage) _ _ s) as [s1 p]. cbn [fst] in *.
